@@ -296,6 +296,10 @@ fn build_shapes(rg: &mut StdRng, big: bool) -> Vec<(String, Pats)> {
     for i in 0..4 {
         v.push((format!("rand{}", i), gen::random_pats(rg, 12, 10)));
     }
+    // enough states that, with every state dense and 256 byte classes, the contiguous NFA and the
+    // DFA need more than 2^24 words / state ids beyond 2^24 (a collection far inside the
+    // documented limits)
+    v.push(("bulk-1200x64".into(), (0..1200).map(|i| { let mut r = gen::rng(i as u64, 0xB18); (0..64).map(|_| r.gen_range(0..=255u8)).collect() }).collect()));
     if big {
         v.push(("p3000x60".into(), (0..3000).map(|i| { let mut r = gen::rng(i as u64, 0xB16); (0..r.gen_range(20..=60)).map(|_| b'a' + r.gen_range(0..6u8)).collect() }).collect()));
         v.push(("p500x300".into(), (0..500).map(|i| { let mut r = gen::rng(i as u64, 0xB17); (0..300).map(|_| r.gen_range(0..=255u8)).collect() }).collect()));
@@ -317,6 +321,9 @@ pub fn run_build(out_prefix: &str, shards: usize, seed: u64, scale: usize) -> us
                     for (ci, pre, dd, bc) in [(false, true, -1i64, true), (true, false, 0, false), (false, false, 2, true), (true, true, 1000, true)] {
                         // keep DFAs of huge collections out of the quick tier
                         if total > 20_000 && (req == "dfa" || req == "auto") && !(mk == "std" && sk == "unanchored" && !ci) {
+                            continue;
+                        }
+                        if name.starts_with("bulk") && (sk != "unanchored" || mk == "ll") {
                             continue;
                         }
                         let mut c = Ctx::new(pats, mk, match req { "nc" => "top-nc", "c" => "top-c", "dfa" => "top-dfa", _ => "top-auto" });
